@@ -1285,6 +1285,10 @@ def c12(W, replay=None):
     W.build()
     if replay:
         rs = [json.loads(l) for l in open(os.path.join(replay, "scenario.ndjson")) if l.strip()]
+        if rs and rs[0].get("conc") and "pre" in rs[0]:
+            lv = lin_expired(W, 0, given=rs * 20)
+            idx = lv.pop("index")
+            return judge("C12", W, [lv], idx, traces=len(rs) * 20, samples=[{"scenario": rs[0]}])
         if rs and rs[0].get("conc"):
             # a concurrent history: the schedule is not reproducible, the same operations are run concurrently again (a few times)
             lv = linearizability(W, 0, given=rs * 50)
@@ -1301,6 +1305,9 @@ def c12(W, replay=None):
         lv = linearizability(W, 3000 if W.tier == "thorough" else 300)
         index.update(lv.pop("index"))
         vs.append(lv)
+        xv = lin_expired(W, 2000 if W.tier == "thorough" else 200)
+        index.update(xv.pop("index"))
+        vs.append(xv)
         rv, nr = redis_pairs(W, 400 if W.tier == "thorough" else 25)
         index.update(rv.pop("index"))
         vs.append(rv)
@@ -1446,6 +1453,85 @@ def linearizability(W, n, given=None):
         v["viol"].append({"p": "C12", "m": "Linearizable", "cause": "memory-store-history-not-linearizable", "sc": sc_id, "n": r["consumed"], "at": r["consumed"]})
     log("[trace] lin: %d concurrent histories (%d events) searched for a linearization by LinTrace (%d states); %s" % (
         n, r["len"], dist, "all linearizable" if r["consumed"] >= r["len"] else "stuck at line %d" % r["consumed"]))
+    return v
+
+
+def lin_expired(W, n, given=None):
+    """Concurrent histories of the in-memory store WITH session limits: a preamble writes sessions and lets them time out,
+    then several goroutines are the first to look at them - at the same time. Run in the race-detector build of the
+    harness: an unsynchronised access inside a store operation (or the runtime's abort on concurrent map access) means the
+    operation is not atomic; the results are judged by LinTrace.tla like every other concurrent history."""
+    rnd = random.Random(W.seed * 104729 + 11)
+    scen = [dict(g, id="%s#%d" % (g["id"], i)) for i, g in enumerate(given or [])]
+    for k in range(0 if given else n):
+        a, i = rnd.choice([(0, 5), (7, 0), (7, 5), (0, 0)])
+        pre = []
+        for sid in ("s1", "s2"):
+            for op in rnd.sample(["SetTok", "SetAuth"], rnd.randint(1, 2)):
+                pre.append({"op": op, "sid": sid, "v": rnd.randint(1, 3)})
+        if rnd.random() < 0.5:
+            pre.append({"op": "flood", "sid": "s1", "v": rnd.choice([20, 200])})
+        if rnd.random() < 0.8:
+            pre.append({"op": "tick", "v": rnd.choice([8, 9, 30])})
+        ops = []
+        for thr in range(4):
+            for j in range(3):
+                op = rnd.choice(["GetTok", "GetTok", "GetAuth", "GetAuth", "GetAuth", "SetTok", "SetAuth", "ClearAuth", "Remove"])
+                ops.append({"op": op, "sid": rnd.choice(["s1", "s1", "s2"]), "v": rnd.randint(1, 3) if op.startswith("Set") else 0, "thr": thr + 1})
+        scen.append({"id": "linx/%d" % k, "store": "memory", "abs": a, "idle": i, "conc": True, "pre": pre, "ops": ops})
+    W.build(race=True)
+    trace, rc, out = W.drive("TestStore", scen, "linx", env_extra={"VERIF_CLOCK_JITTER": "1", "VERIF_ANNOUNCE": "1"}, race=True)
+    v = {"viol": [], "fired": {"concurrentHistoriesWithTimedOutSessions": len(scen)}, "drift": [], "index": {s_["id"]: s_ for s_ in scen}}
+    # what the race detector / the runtime said, attributed to the scenario that was running
+    cur, races, fatal = "?", {}, None
+    lines = out.splitlines()
+    for j, ln in enumerate(lines):
+        if ln.startswith("VERIF-SCENARIO "):
+            cur = ln.split(" ", 1)[1].strip()
+        elif ln.startswith("WARNING: DATA RACE"):
+            block = []
+            for l2 in lines[j + 1:j + 120]:
+                if l2.startswith("=================="):
+                    break
+                block.append(l2)
+            in_store = [b for b in block if "/internal/oidc/" in b and "zz_verif" not in b]
+            if in_store:
+                races.setdefault(cur, in_store[0].strip())
+            else:
+                raise Infra("the race detector reports a race outside the store (the harness itself?):\n" + "\n".join(block[:40]))
+        elif ln.startswith("fatal error: concurrent map"):
+            fatal = (cur, ln.strip())
+    for sc_id, where in sorted(races.items()):
+        v["viol"].append({"p": "C12", "m": "AtomicOps", "cause": "memory-store-operation-races-with-another", "sc": sc_id, "n": 0, "at": 0, "where": where})
+    if fatal:
+        v["viol"].append({"p": "C12", "m": "AtomicOps", "cause": "memory-store-concurrent-map-access-aborts-the-process", "sc": fatal[0], "n": 0, "at": 0, "where": fatal[1]})
+    if fatal:
+        log("[drive] linx: the process was aborted by the runtime: %s in %s" % (fatal[1], fatal[0]))
+        return v
+    if rc != 0 and not races:
+        raise Infra("race-build driver failed (exit %d):\n%s" % (rc, out[-3000:]))
+    if not os.path.exists(trace):
+        return v
+    outf = W.path("linx.verdict.json")
+    cfg = ('INIT InitL\nNEXT Next\nCONSTANTS\n  TraceFile = "%s"\n  OutFile = "%s"\nCONSTRAINT Mark\nPOSTCONDITION Post\nCHECK_DEADLOCK FALSE\n' % (trace, outf))
+    tout, gen, dist, viol, d = W.tlc("LinTrace", cfg, "linx", workers=1, timeout=1800, jvm=["-Dtlc2.tool.queue.IStateQueue=StateDeque"])
+    if not os.path.exists(outf):
+        raise Infra("LinTrace produced no verdict:\n" + tout[-2000:])
+    r = json.load(open(outf))
+    W.tlc_states += dist
+    W.tlc_transitions += gen
+    if r["consumed"] < r["len"]:
+        sc_id = "?"
+        with open(trace) as fh:
+            for i, ln in enumerate(fh, 1):
+                e = json.loads(ln)
+                if e.get("ev") == "sreset":
+                    if i > r["consumed"] + 1:
+                        break
+                    sc_id = e["scenario"]
+        v["viol"].append({"p": "C12", "m": "Linearizable", "cause": "memory-store-history-with-timed-out-sessions-not-linearizable", "sc": sc_id, "n": r["consumed"], "at": r["consumed"]})
+    log("[trace] linx: %d concurrent histories over timed-out sessions (%d events; race detector on: %d racing operations) searched for a linearization by LinTrace (%d states); %s" % (
+        len(scen), r["len"], len(races), dist, "all linearizable" if r["consumed"] >= r["len"] else "stuck at line %d" % r["consumed"]))
     return v
 
 
